@@ -7,19 +7,87 @@ pub assume_specification<T, F: FnOnce() -> Option<T>>[ Option::<T>::or_else ](op
     ensures opt.is_some() ==> r == opt,
             opt.is_none() ==> f.ensures((), r);
 
-// ---- abstract primitives -------------------------------------------------
-pub uninterp spec fn hash_fn(id: int, data: Seq<u8>) -> Seq<u8>;
-pub uninterp spec fn aead_enc(id: int, k: Seq<u8>, n: u64, ad: Seq<u8>, pt: Seq<u8>) -> Seq<u8>;
-pub uninterp spec fn aead_dec(id: int, k: Seq<u8>, n: u64, ad: Seq<u8>, ct: Seq<u8>) -> Option<Seq<u8>>;
-// what a built-in cipher leaves in the caller's buffer when authentication fails: a function of public data only
-// (the previous buffer contents and the ciphertext) - never of the key or the plaintext (C19)
-pub uninterp spec fn dec_fail_out(id: int, old_out: Seq<u8>, ct: Seq<u8>) -> Seq<u8>;
-pub uninterp spec fn dh_pub(id: int, sk: Seq<u8>) -> Seq<u8>;
+// ---- primitives ---------------------------------------------------------------------------------
+// The core unit treats hash_fn / aead_enc / aead_dec / dh_pub / dh_fn as opaque functions of an algorithm id.
+// The wrapper unit (R16) reveals the definitions below: ids 1.. are the *standard* algorithms behind the names
+// that may appear in a Noise protocol name, with the Noise nonce encodings (rev 34, section 12; snow's documented
+// XChaChaPoly extension).  The standard algorithms themselves stay uninterpreted (third-party code, out of reach).
+pub uninterp spec fn std_sha256(d: Seq<u8>) -> Seq<u8>;      // FIPS 180-4
+pub uninterp spec fn std_sha512(d: Seq<u8>) -> Seq<u8>;      // FIPS 180-4
+pub uninterp spec fn std_blake2s(d: Seq<u8>) -> Seq<u8>;     // RFC 7693, 32-byte digest
+pub uninterp spec fn std_blake2b(d: Seq<u8>) -> Seq<u8>;     // RFC 7693, 64-byte digest
+pub uninterp spec fn other_hash(id: int, d: Seq<u8>) -> Seq<u8>;
+pub open spec fn ID_SHA256() -> int { 1 }
+pub open spec fn ID_SHA512() -> int { 2 }
+pub open spec fn ID_BLAKE2S() -> int { 3 }
+pub open spec fn ID_BLAKE2B() -> int { 4 }
+#[verifier::opaque]
+pub open spec fn hash_fn(id: int, data: Seq<u8>) -> Seq<u8> {
+    if id == 1 { std_sha256(data) } else if id == 2 { std_sha512(data) } else if id == 3 { std_blake2s(data) } else if id == 4 { std_blake2b(data) } else { other_hash(id, data) }
+}
+// detached-tag AEADs of RFC 8439 / NIST SP 800-38D / draft-irtf-cfrg-xchacha: result is ciphertext || 16-byte tag
+pub uninterp spec fn std_chachapoly_enc(k: Seq<u8>, nonce12: Seq<u8>, ad: Seq<u8>, pt: Seq<u8>) -> Seq<u8>;
+pub uninterp spec fn std_chachapoly_dec(k: Seq<u8>, nonce12: Seq<u8>, ad: Seq<u8>, ct: Seq<u8>) -> Option<Seq<u8>>;
+pub uninterp spec fn std_aes256gcm_enc(k: Seq<u8>, nonce12: Seq<u8>, ad: Seq<u8>, pt: Seq<u8>) -> Seq<u8>;
+pub uninterp spec fn std_aes256gcm_dec(k: Seq<u8>, nonce12: Seq<u8>, ad: Seq<u8>, ct: Seq<u8>) -> Option<Seq<u8>>;
+pub uninterp spec fn std_xchachapoly_enc(k: Seq<u8>, nonce24: Seq<u8>, ad: Seq<u8>, pt: Seq<u8>) -> Seq<u8>;
+pub uninterp spec fn std_xchachapoly_dec(k: Seq<u8>, nonce24: Seq<u8>, ad: Seq<u8>, ct: Seq<u8>) -> Option<Seq<u8>>;
+pub uninterp spec fn other_aead_enc(id: int, k: Seq<u8>, n: u64, ad: Seq<u8>, pt: Seq<u8>) -> Seq<u8>;
+pub uninterp spec fn other_aead_dec(id: int, k: Seq<u8>, n: u64, ad: Seq<u8>, ct: Seq<u8>) -> Option<Seq<u8>>;
+pub open spec fn ID_CHACHAPOLY() -> int { 1 }
+pub open spec fn ID_AESGCM() -> int { 2 }
+pub open spec fn ID_XCHACHAPOLY() -> int { 3 }
+pub open spec fn le64(n: u64) -> Seq<u8> { Seq::new(8, |i: int| ((n >> ((8 * i) as u64)) & 0xff) as u8) }
+pub open spec fn be64(n: u64) -> Seq<u8> { Seq::new(8, |i: int| ((n >> ((8 * (7 - i)) as u64)) & 0xff) as u8) }
+// Noise 12.3: ChaChaPoly nonce = 32 zero bits || little-endian n.  12.4: AESGCM nonce = 32 zero bits || big-endian n.
+pub open spec fn nonce_chacha(n: u64) -> Seq<u8> { zeros(4) + le64(n) }
+pub open spec fn nonce_aesgcm(n: u64) -> Seq<u8> { zeros(4) + be64(n) }
+pub open spec fn nonce_xchacha(n: u64) -> Seq<u8> { zeros(16) + le64(n) }
+#[verifier::opaque]
+pub open spec fn aead_enc(id: int, k: Seq<u8>, n: u64, ad: Seq<u8>, pt: Seq<u8>) -> Seq<u8> {
+    if id == 1 { std_chachapoly_enc(k, nonce_chacha(n), ad, pt) } else if id == 2 { std_aes256gcm_enc(k, nonce_aesgcm(n), ad, pt) }
+    else if id == 3 { std_xchachapoly_enc(k, nonce_xchacha(n), ad, pt) } else { other_aead_enc(id, k, n, ad, pt) }
+}
+#[verifier::opaque]
+pub open spec fn aead_dec(id: int, k: Seq<u8>, n: u64, ad: Seq<u8>, ct: Seq<u8>) -> Option<Seq<u8>> {
+    if id == 1 { std_chachapoly_dec(k, nonce_chacha(n), ad, ct) } else if id == 2 { std_aes256gcm_dec(k, nonce_aesgcm(n), ad, ct) }
+    else if id == 3 { std_xchachapoly_dec(k, nonce_xchacha(n), ad, ct) } else { other_aead_dec(id, k, n, ad, ct) }
+}
+// what a cipher object of backend `origin` leaves in the caller's buffer when authentication fails: a function of
+// public data only (the previous buffer contents and the ciphertext) - never of the key or the plaintext (C19).
+// origin 1 = snow's default (RustCrypto) wrappers: the ciphertext body is copied, the tag check fails, nothing else is written.
+// origin 2 = snow's ring wrappers: in place when the buffer holds the whole message (ring's leftover), untouched otherwise.
+pub uninterp spec fn ring_fail_buf(ct: Seq<u8>) -> Seq<u8>;
+pub uninterp spec fn other_fail_out(origin: int, old_out: Seq<u8>, ct: Seq<u8>) -> Seq<u8>;
+pub open spec fn ORIGIN_DEFAULT() -> int { 1 }
+pub open spec fn ORIGIN_RING() -> int { 2 }
+#[verifier::opaque]
+pub open spec fn dec_fail_out(origin: int, old_out: Seq<u8>, ct: Seq<u8>) -> Seq<u8> {
+    if origin == 1 { ct.subrange(0, ct.len() - 16) + old_out.subrange(ct.len() - 16, old_out.len() as int) }
+    else if origin == 2 { if old_out.len() >= ct.len() { ring_fail_buf(ct) + old_out.subrange(ct.len() as int, old_out.len() as int) } else { old_out } }
+    else { other_fail_out(origin, old_out, ct) }
+}
+// X25519 (RFC 7748) with clamping; id 1
+pub uninterp spec fn std_x25519_base(sk: Seq<u8>) -> Seq<u8>;
+pub uninterp spec fn std_x25519(sk: Seq<u8>, pk: Seq<u8>) -> Seq<u8>;
+pub uninterp spec fn other_dh_pub(id: int, sk: Seq<u8>) -> Seq<u8>;
+pub uninterp spec fn other_dh_fn(id: int, sk: Seq<u8>, pk: Seq<u8>) -> Seq<u8>;
+pub uninterp spec fn other_dh_valid(id: int, sk: Seq<u8>, pk: Seq<u8>) -> bool;
+pub uninterp spec fn other_dh_pub_len(id: int) -> int;
+pub uninterp spec fn other_dh_priv_len(id: int) -> int;
+pub open spec fn ID_X25519() -> int { 1 }
+#[verifier::opaque]
+pub open spec fn dh_pub(id: int, sk: Seq<u8>) -> Seq<u8> { if id == 1 { std_x25519_base(sk) } else { other_dh_pub(id, sk) } }
 // public-key length of the DH function `id`
-pub uninterp spec fn dh_pub_len(id: int) -> int;
-pub uninterp spec fn dh_fn(id: int, sk: Seq<u8>, pk: Seq<u8>) -> Seq<u8>;
+#[verifier::opaque]
+pub open spec fn dh_pub_len(id: int) -> int { if id == 1 { 32 } else { other_dh_pub_len(id) } }
+#[verifier::opaque]
+pub open spec fn dh_priv_len(id: int) -> int { if id == 1 { 32 } else { other_dh_priv_len(id) } }
+#[verifier::opaque]
+pub open spec fn dh_fn(id: int, sk: Seq<u8>, pk: Seq<u8>) -> Seq<u8> { if id == 1 { std_x25519(sk, pk) } else { other_dh_fn(id, sk, pk) } }
 // whether the DH function accepts this peer public key (always true for X25519; P-256 rejects invalid points)
-pub uninterp spec fn dh_valid(id: int, sk: Seq<u8>, pk: Seq<u8>) -> bool;
+#[verifier::opaque]
+pub open spec fn dh_valid(id: int, sk: Seq<u8>, pk: Seq<u8>) -> bool { if id == 1 { true } else { other_dh_valid(id, sk, pk) } }
 
 // what a primitive *name* in a Noise protocol name stands for: every backend that provides e.g. DHChoice::Curve25519
 // must provide the same function with the same lengths (assumed contract of CryptoResolver implementations)
@@ -31,7 +99,10 @@ pub uninterp spec fn spec_hash_id(c: crate::params::HashChoice) -> int;
 pub uninterp spec fn spec_hash_hl(c: crate::params::HashChoice) -> int;
 pub uninterp spec fn spec_hash_bl(c: crate::params::HashChoice) -> int;
 pub uninterp spec fn spec_cipher_id(c: crate::params::CipherChoice) -> int;
-pub uninterp spec fn gen_sk(rng_state: int, did: int) -> Seq<u8>;
+// randomness model: an RNG is a hidden state; the bytes it returns and its next state are functions of that state
+pub uninterp spec fn gen_bytes(rng_state: int, n: int) -> Seq<u8>;
+#[verifier::opaque]
+pub open spec fn gen_sk(rng_state: int, did: int) -> Seq<u8> { gen_bytes(rng_state, dh_priv_len(did)) }
 pub uninterp spec fn gen_next(rng_state: int) -> int;
 pub open spec fn zeros(n: int) -> Seq<u8> { Seq::new(n as nat, |i: int| 0u8) }
 
